@@ -363,6 +363,32 @@ impl C05 {
             }
             ctx.count("string:unterminated-with-zero-padding");
         }
+        // memory map whose entry_size field names another element size than the one the
+        // library models (24): "element counts equal (size minus fixed part) divided by
+        // the element size" — a count computed with a stride of 24 is not that. The
+        // library may refuse such a map (it does, by a controlled panic) or decode it
+        // with the stored stride; it must not hand out 24-byte areas.
+        if name == "mmap" && !embedded && size > 16 && size <= t.len() {
+            let es = [8u32, 16, 32, 40, 48][size % 5];
+            let mut t2 = t.clone();
+            put32(&mut t2, 8, es);
+            let reg = Region::new(ctx.placement, &t2);
+            let r = catch(|| {
+                let g = DynSizedStructure::<TagHeader>::ref_from_slice(reg.as_slice()).expect("valid bytes");
+                let m = g.cast::<MemoryMapTag>();
+                let a = m.memory_areas();
+                touch_val(a);
+                a.len()
+            });
+            match r {
+                Out::Val(n) if n > 0 && n != (size - 16) / es as usize => ctx.violation(
+                    "mmap:foreign-entry-size-decoded-with-stride-24",
+                    J::obj(vec![("entry_size", J::u(es as u64)), ("declared_size", J::u(size as u64)), ("areas_returned", J::u(n as u64)), ("tag_bytes", J::S(hex_trunc(&t2, 64)))]),
+                ),
+                Out::Val(_) => ctx.count("mmap:foreign-entry-size:accepted-consistently"),
+                Out::Panic(_) => ctx.count("mmap:foreign-entry-size:rejected"),
+            }
+        }
         ctx.nontrivial(mix2(mix2(k as u64, size as u64), embedded as u64));
         if ctx.want_sample() && size == KINDS[k].2 + 5 && !embedded {
             ctx.sample(J::obj(vec![("kind", J::s(name)), ("declared_size", J::u(size as u64)), ("expected", J::s(format!("{:?}", exp))), ("tag_bytes", J::S(hex_trunc(&t, 64)))]));
